@@ -6,7 +6,7 @@ import warnings
 from copy import deepcopy
 from dataclasses import dataclass, field
 from functools import partial
-from threading import Lock
+from threading import Lock, get_ident
 from types import MethodType
 from typing import Any, Callable, Dict, Generic, List, Optional, Tuple, Union
 
@@ -45,6 +45,14 @@ results: StrictDict[Identifier, Any] = StrictDict()
 # to avoid name conflicts when imbricating DAGs within each other
 DAG_PREFIX: List[str] = []
 exec_nodes_lock = Lock()
+# identifier of the thread that is describing a DAG (the holder of exec_nodes_lock), None otherwise
+describing_thread: Optional[int] = None
+
+
+def in_description_context() -> bool:
+    """Whether the calling thread is the one currently describing a DAG."""
+    return exec_nodes_lock.locked() and describing_thread == get_ident()
+
 
 # multiple ways of identifying an XN
 Alias = Union[Tag, Identifier, "ExecNode"]
@@ -378,7 +386,7 @@ class LazyExecNode(ExecNode, Generic[P, RVXN]):
                 2. setup ExecNode depends on normal ExecNode
         """
         # 0.1 LazyExecNodes calls outside outside DAG dependency calculation is not recommended
-        if not exec_nodes_lock.locked():
+        if not in_description_context():
             msg = f"Invoking {self} outside of a `DAG`. Executing wrapped function instead of describing dependency."
             if cfg.TAWAZI_EXECNODE_OUTSIDE_DAG_BEHAVIOR == XNOutsideDAGCall.error:
                 raise TawaziUsageError(msg)
@@ -415,8 +423,8 @@ class LazyExecNode(ExecNode, Generic[P, RVXN]):
         return new_lxn._usage_exec_node  # type: ignore[return-value]
 
     def _validate_dependencies(self) -> None:
-        # only validate dependencies if the exec_nodes_lock is locked
-        if not exec_nodes_lock.locked():
+        # only validate dependencies while this thread describes a DAG
+        if not in_description_context():
             return
         for dep in self.dependencies:
             # if ExecNode is not a debug node, all its dependencies must not be debug node
